@@ -242,33 +242,47 @@ def assemble(arch_name, texts, flags=None, extra=()):
 
 
 def objdump_x86(blobs):
-    """GNU objdump -M intel on x86-64 bytes: [None | [text,...]].  Each blob is followed by a sentinel (ud2)."""
+    """GNU objdump -M intel as a second x86-64 decoder: [None | [text, ...]] per blob.
+    The blobs are laid out one after the other, each followed by 16 one-byte NOPs (a misdecoded blob can only swallow NOPs and the
+    sweep is in step again at the next blob); an instruction is attributed to the blob that contains its address and a blob whose
+    last instruction does not end exactly at its end is not attributed at all."""
     from vf.core import scratch
-    sent = SENTINEL["x86_64"]
     res = [None] * len(blobs)
-    with scratch("llvmdis") as d:
-        for s in range(0, len(blobs), BATCH):
-            part = [i for i in range(s, min(len(blobs), s + BATCH)) if blobs[i]]
-            raw = b"".join(bytes(blobs[i]) + sent for i in part)
+    pad = b"\x90" * 16
+    with scratch("objdump") as d:
+        for s0 in range(0, len(blobs), BATCH):
+            part = [i for i in range(s0, min(len(blobs), s0 + BATCH)) if blobs[i]]
+            if not part:
+                continue
+            raw = bytearray()
+            spans = []
+            for i in part:
+                spans.append((len(raw), len(raw) + len(blobs[i])))
+                raw += bytes(blobs[i]) + pad
             fn = os.path.join(d, "x.bin")
             with open(fn, "wb") as f:
                 f.write(raw)
             r = subprocess.run(["objdump", "-D", "-b", "binary", "-m", "i386:x86-64", "-M", "intel", "--no-show-raw-insn", "-w", fn],
                                capture_output=True, text=True)
-            chunks, cur = [], []
+            lines = []
             for line in r.stdout.splitlines():
-                m = re.match(r"\s*[0-9a-f]+:\s+(.*)$", line)
-                if not m:
-                    continue
-                t = re.sub(r"\s+", " ", m.group(1).split("#")[0].strip())
-                if t == "ud2":
-                    chunks.append(cur)
-                    cur = []
-                else:
-                    cur.append(t)
-            if len(chunks) != len(part):
-                continue     # a blob swallowed its sentinel: no attribution for this batch
-            for i, c in zip(part, chunks):
-                if c and not any("(bad)" in t for t in c):
-                    res[i] = c
+                m = re.match(r"\s*([0-9a-f]+):\s+(.*)$", line)
+                if m:
+                    t = re.sub(r"\s+", " ", m.group(2).split("#")[0].strip())
+                    t = re.sub(r"^rex(\.[WRXB]+)? (?=\S)", "", t)       # objdump names REX prefixes that change nothing
+                    lines.append((int(m.group(1), 16), t))
+            lines.append((len(raw), ""))
+            k = 0
+            for i, (a, e) in zip(part, spans):
+                while k < len(lines) - 1 and lines[k][0] < a:
+                    k += 1
+                got = []
+                ok = lines[k][0] == a
+                while k < len(lines) - 1 and lines[k][0] < e:
+                    got.append(lines[k][1])
+                    if lines[k + 1][0] > e:
+                        ok = False
+                    k += 1
+                if ok and got and not any("(bad)" in t for t in got):
+                    res[i] = got
     return res
